@@ -145,4 +145,23 @@ Proof.
     exists n, b, s1, s2. exact A.
 Qed.
 
+
+Theorem c07_noast_switch_strong inline r rb st0 :
+  (forall rb0, nth_error (optimize g) ptx = Some rb0 -> rb0 = RNil) ->
+  nth_error g r = Some rb -> rb <> RNil ->
+  o_inline (mk_opts false false inline (optimize g)) r = false ->
+  exists n res evs st',
+    peg_parse g ptx buf penv n r = Some (res, evs) /\
+    machine_noast (optimize g) ptx buf penv inline n r st0 = Some (Ret (match res with Fail => false | Succ _ _ => true end) st') /\
+    match res with Succ p _ => pos st' = p /\ p <= length buf | Fail => True end.
+Proof.
+  intros Hptx Hr Hn Hinl.
+  destruct (fs_table g) as [T st] eqn:E. destruct st.
+  - eapply (c07_noast_switch g tab rank Hwf (stable_opt_ok g Hro T E) optimize_good_grammar optimize_good_switches ptx buf penv Hbuf Hvalid); eauto.
+  - rewrite (optimize_unstable T E) in *.
+    destruct (c01_total g ptx buf penv tab rank r rb Hwf Hr Hn) as (n & [res evs] & H).
+    destruct (c07_noast g ptx buf penv Hg Hbuf plain_good_switches Hptx inline n r st0 _ Hinl H) as (st' & R & _ & P).
+    cbn [fst] in *. exists n, res, evs, st'. auto.
+Qed.
+
 End Strong.
